@@ -157,6 +157,9 @@ impl Sim {
                 acc.count("commit_with_clock_not_after_last_cid");
             }
         }
+        if acc.samples.len() < 4 && self.n % 97 == 3 {
+            acc.sample(json!({"last_steps (clock delta/action@clock)": self.trace.iter().rev().take(6).rev().collect::<Vec<_>>(), "committed_change_id": format!("{now:?}")}));
+        }
         self.last = Some(now);
     }
 }
